@@ -625,6 +625,23 @@ class Facts:
                 for a in t['args']:
                     if a.get('k') == 'const' and 'fn' in a:
                         g[key].add(a['fn'])
+                # formatting a value of a local type calls that type's Display / Debug impl (through core::fmt's type-erased
+                # argument, which the MIR call graph does not show)
+                cn = t['callee'].get('path') or ''
+                # `x.fmt(f)` / `write!(f, "{}", x)` on a reference to a local type goes through std's blanket impl for &T
+                if cn in ('core::fmt::Display::fmt', 'core::fmt::Debug::fmt') and (t['callee'].get('self_ty') or '').startswith('&'):
+                    ty = _LIFETIME.sub('', t['callee']['self_ty']).lstrip('&').replace('mut ', '').strip()
+                    cand = '<%s as %s>::fmt' % (ty, cn.rsplit('::', 1)[0])
+                    if cand in self.fns:
+                        g[key].add(cand)
+                if cn.startswith('core::fmt::rt::Argument') and cn.endswith(('::new_display', '::new_debug')):
+                    ga = _split_generic_args(t['callee'].get('generic_args'))
+                    if ga:
+                        ty = _LIFETIME.sub('', ga[0]).lstrip('&').strip()
+                        trait = 'core::fmt::Display' if cn.endswith('new_display') else 'core::fmt::Debug'
+                        cand = '<%s as %s>::fmt' % (ty, trait)
+                        if cand in self.fns:
+                            g[key].add(cand)
         return g
 
     def reachable_fns(self, roots):
